@@ -177,7 +177,11 @@ def _norm(term):
   k = term[0]
   if k == "cls":
     n = term[1]
-    return ("cls", n[2:] if n.startswith("a.") else n)
+    n = n[2:] if n.startswith("a.") else n
+    # a stub names a class of another module through its own import table (`from vkpkg import sub` ->
+    # `sub.K`, `import vkpkg.sub as s` -> `s.K`), the downstream stub by its full name: compare the
+    # class name proper
+    return ("cls", n.split(".")[-1] if "vkpkg" in n or n.split(".")[0] in ("sub", "s", "renamed") else n)
   if k == "union":
     ms = frozenset(_norm(x) for x in term[1])
     return next(iter(ms)) if len(ms) == 1 else ("union", ms)
@@ -197,15 +201,60 @@ def _norm(term):
   return term
 
 
+# Helper packages that upstream programs import in every form.  vkpkg's __init__ does NOT bind its
+# submodule, vkpkg2's does; both are delivered to every analysis next to a's stub.
+HELPER_STUBS = {
+    "vkpkg/__init__": "v: int\n",
+    "vkpkg/sub": "class K:\n    z: str\ndef mk() -> K: ...\nW: int\n",
+    "vkpkg2/__init__": "from . import sub as sub\nv: int\n",
+    "vkpkg2/sub": "class K:\n    z: str\ndef mk() -> K: ...\nW: int\n",
+}
+IMPORT_FORMS = [
+    "from {P} import sub\nk0 = sub.K()\nm0 = sub\nr0 = sub.mk().z\n",
+    "import {P}.sub\nk0 = {P}.sub.K()\nr0 = {P}.sub.mk()\n",
+    "from {P}.sub import K as Kx, mk\nk0 = Kx()\nr0 = mk()\nt0 = Kx\n",
+    "import {P}.sub as s\nk0 = s.K()\nm0 = s\nw0 = s.W\n",
+    "import {P}\nv0 = {P}.v\n",
+    "from {P} import sub as renamed\nclass D(renamed.K):\n  pass\nd0 = D()\nz0 = D().z\n",
+]
+
+
+def import_programs():
+  return [("imp:%s/%d" % (p, k), f.replace("{P}", p)) for p in ("vkpkg", "vkpkg2") for k, f in enumerate(IMPORT_FORMS)]
+
+
+def _write_helpers(d):
+  paths = {}
+  for key, text in HELPER_STUBS.items():
+    path = os.path.join(d, key + ".pyi")
+    os.makedirs(os.path.dirname(path), exist_ok=True)
+    with open(path, "w") as f:
+      f.write(text)
+    paths[key] = path
+  return paths
+
+
 def check_upstream(src, share):
   """Returns (violations, info)."""
   boot.load()
   from pytype import config, io, load_pytd
   from pytype import imports_map as imports_map_lib
+  uses_helpers = "vkpkg" in src
+  hd = None
   try:
-    up = pt.analyze(src, share=share, module_name="a")
+    if uses_helpers:
+      hd = tempfile.mkdtemp(prefix="vk_c06_up_")
+      _write_helpers(hd)
+      up = pt.analyze(src, module_name="a", pythonpath=hd)
+    else:
+      up = pt.analyze(src, share=share, module_name="a")
   except Exception as e:  # pylint: disable=broad-except
     return [], {"outcome": "upstream-analysis-exception"}
+  finally:
+    if hd:
+      shutil.rmtree(hd, ignore_errors=True)
+  if uses_helpers and any(n in BAD_ERRORS for n, _, _ in up.errors):
+    return [], {"outcome": "upstream-import-errors"}
   stub = pt.Stub(up.pyi)
   bsrc, exp = downstream(stub)
   uses = replay_lines(src, stub)
@@ -221,10 +270,11 @@ def check_upstream(src, share):
     # pickled stub, written the way pytype.io.write_pickle does
     popts = pt.options(module_name="a", output=os.path.join(d, "a.pickled"), input_filename="a.py")
     io.write_pickle(up.ast, popts, load_pytd.create_loader(popts))
+    helpers = _write_helpers(d) if uses_helpers else {}
     configs = {
         "pythonpath": dict(pythonpath=d),
-        "imports_map": dict(pythonpath="", _imap={"a": os.path.join(d, "a.pyi")}),
-        "pickled": dict(pythonpath="", use_pickled_files=True, _imap={"a": os.path.join(d, "a.pickled")}),
+        "imports_map": dict(pythonpath="", _imap=dict(helpers, a=os.path.join(d, "a.pyi"))),
+        "pickled": dict(pythonpath="", use_pickled_files=True, _imap=dict(helpers, a=os.path.join(d, "a.pickled"))),
     }
     for cname, kw in configs.items():
       imap = kw.pop("_imap", None)
@@ -304,6 +354,7 @@ def work(item):
 def programs(tier):
   from vk import defspace
   ps = [(progspace.pid(s), s) for s in c05.DEFS]
+  ps += import_programs()
   ps += [(i, s) for i, s in defspace.programs(tier)
          if tier != "quick" or i.startswith(("alone:", "cls:", "flow:assign<-", "flow:initattr<-", "flow:outside<-", "flow:default<-"))]
   if tier == "quick":
